@@ -265,8 +265,15 @@ func pickMax(rng *rand.Rand, class string, files []*fileRec) int64 {
 		if largest <= lib.Block {
 			return lib.Block
 		}
-		switch rng.IntN(5) {
+		switch rng.IntN(6) {
 		case 0:
+			return largest - 1
+		case 5:
+			// inside the rounding window of one file: its byte length fits, its rounded size does not
+			f := files[rng.IntN(len(files))]
+			if f.cost() > lib.Block && f.DiskLen < f.cost() {
+				return f.DiskLen + rng.Int64N(f.cost()-f.DiskLen)
+			}
 			return largest - 1
 		case 1:
 			return largest - lib.Block
@@ -374,7 +381,9 @@ func runCase(r *lib.Run, pool *lib.DirPool, idx, worker int) {
 	cs.dir = dir
 	defer func() { defer cs.timed("cleanup")(); release() }()
 	for _, f := range cs.pop.Files {
-		hookKeys.Store(f.Key(), cs)
+		if prev, loaded := hookKeys.Swap(f.Key(), cs); loaded && prev.(*caseState) != cs {
+			r.Count("harness.key-shared-by-two-running-cases") // must stay 0: events would be misrouted
+		}
 	}
 	defer func() {
 		for _, f := range cs.pop.Files {
@@ -407,6 +416,9 @@ func runCase(r *lib.Run, pool *lib.DirPool, idx, worker int) {
 		hasLegacy = hasLegacy || f.Layout != "v2"
 		if f.cost() > cs.max {
 			r.Count("gen.oversized-file." + f.Kind)
+			if f.DiskLen <= cs.max {
+				r.Count("gen.oversized-file.only-by-4k-rounding")
+			}
 		}
 		if f.Kind == "cas" && f.Layout == "v2" {
 			onDisk := "compressed"
@@ -552,6 +564,8 @@ var (
 	isoMemo = map[string]*isoEntry{}
 	reHash  = regexp.MustCompile(`[0-9a-f]{64}`)
 	rePath  = regexp.MustCompile(`/[^ :]*/((?:cas|ac|raw)(?:\.v2)?/)`)
+	reSub   = regexp.MustCompile(`/[0-9a-f]{2}/`)
+	isoRuns int
 )
 
 type isoEntry struct {
@@ -579,6 +593,7 @@ func (cs *caseState) hasFeature(ft string) bool {
 
 func (cs *caseState) classify(err error) (string, string) {
 	pat := rePath.ReplaceAllString(reHash.ReplaceAllString(err.Error(), "<hash>"), "<dir>/$1")
+	pat = reSub.ReplaceAllString(pat, "/xx/")
 	isoMu.Lock()
 	m := isoMemo[pat]
 	if m != nil && m.agree >= 3 && !m.mixed && cs.hasFeature(m.feature) {
@@ -587,7 +602,14 @@ func (cs *caseState) classify(err error) (string, string) {
 		cs.r.Count("startup-error.classified.by-memo")
 		return ft, "three agreeing isolation experiments for the error pattern " + pat
 	}
+	isoRuns++
+	over := isoRuns > 40
 	isoMu.Unlock()
+	if over {
+		// a tree that fails this often is broken anyway; do not spend the run on experiments
+		cs.r.Count("startup-error.not-isolated.budget")
+		return "not-isolated", "the budget of 40 isolation experiments per run is spent"
+	}
 	ft := cs.isolate()
 	cs.r.Count("startup-error.classified.by-experiment")
 	isoMu.Lock()
@@ -630,6 +652,12 @@ func (cs *caseState) isolate() string {
 	}
 	if try(nil, 1<<40) {
 		return "max_size=" + cs.maxClass
+	}
+	// two causes at once (e.g. an oversized file and another feature)
+	for _, ft := range cs.pop.features() {
+		if try(map[string]bool{ft: true}, 1<<40) {
+			return ft
+		}
 	}
 	return "unclassified"
 }
@@ -692,7 +720,7 @@ func (cs *caseState) uploads(rng *rand.Rand, ph string, c disk.Cache, st *afterS
 		limit = 3 * lib.MiB
 	}
 	var sizes []int
-	for _, s := range []int{1, 700, 2000, 4096, 5000, 20000, 70000} {
+	for _, s := range []int{9, 700, 2000, 4096, 5000, 20000, 70000} {
 		if int64(s) <= limit {
 			sizes = append(sizes, s)
 		}
@@ -726,7 +754,8 @@ func (cs *caseState) uploads(rng *rand.Rand, ph string, c disk.Cache, st *afterS
 			}
 		}
 		ck := weighted(rng, "random", 60, "text", 20, "zero", 20)
-		b := lib.GenBlob(rng, sz, ck, fmt.Sprintf("%s-%s-%d", cs.tag, ph, n))
+		b := uniqueBlob(rng, sz, ck, fmt.Sprintf("%s-%s-%d", cs.tag, ph, n))
+		sz = len(b)
 		f := &fileRec{ID: 1000 + len(cs.freshSeq), Kind: "cas", Hash: lib.Sha256Hex(b), Content: b, Writer: "upload", Layout: "v2", Enc: "put-" + storage}
 		hookKeys.Store(f.Key(), cs)
 		cs.fresh[f.Key()] = f
